@@ -28,7 +28,7 @@ ASSUMPTIONS = [
     'references are judged through resolveName, Class.baseobjects and the href of rendered links',
 ]
 FLOOR = {'quick': 1000, 'thorough': 5000}
-SPACE = {'quick': '4 kinds x 2 re-exporters x 3 forms x 4 origin variants x 6 consumers x 2 docformats x 6 schedules + 48 full driver runs',
+SPACE = {'quick': '4 kinds x 5 re-exporter / definer namings (package, sibling, sibling whose name begins with the object name, object defined in the package __init__) x 3 forms x 4 origin variants x 6 consumers x 2 docformats x 6 schedules + 48 full driver runs',
          'thorough': 'quick + all unordered pairs of consumers (4 modules, 24 schedules)'}
 
 OBJ = {
@@ -44,6 +44,18 @@ ORIGIN = {
     # a valid import cycle: the defining module imports the package / re-exporter after its own definitions
     'imports-back': 'import p\nfrom p import rx as _rx0\n',
 }
+# where the object is defined and what the re-exporting module is called: 'sibling' = defined in p._impl, re-exported by p.rx;
+# 'sibling:Ox' = the re-exporter's name begins with the object's name; 'initdef:*' = defined in the package __init__ itself
+DEF = ['p._impl']
+REXES = ('init', 'sibling', 'sibling:Ox', 'initdef:rx', 'initdef:Ox')
+
+
+def set_naming(rex: str) -> Tuple[str, str]:
+    """returns (base re-exporter kind, re-exporter module name) and records the defining module"""
+    DEF[0] = 'p' if rex.startswith('initdef') else 'p._impl'
+    return ('init' if rex == 'init' else 'sibling'), (rex.split(':')[1] if ':' in rex else 'rx')
+
+
 CONSUMERS = ['definer', 'reexporter', 'modattr-definer', 'modattr-reexporter', 'star-definer', 'star-reexporter']
 
 
@@ -81,6 +93,25 @@ def consumer_src(cname: str, consumer: str, kind: str, target_mod: str, exported
 
 
 def program(kind: str, rex: str, form: str, origin: str, consumers: Sequence[str], fmt: str) -> Tuple[Dict[str, str], str, List[Tuple[str, str, str]]]:
+    naming = rex
+    rex, rxname = set_naming(naming)
+    mods, new_full, cons = _program(kind, rex, form, origin, consumers, fmt)
+    if naming.startswith('initdef'):
+        # the object lives in the package __init__: the definer module's text becomes the package's
+        impl = mods.pop('_impl')
+        mods['p'] = impl + mods['p']
+        for k in list(mods):
+            mods[k] = (mods[k].replace('from ._impl import', 'from p import').replace('from p._impl import', 'from p import').replace('import p._impl\n', 'import p\n')
+                       .replace('p._impl.O', 'p.O'))
+    if rxname != 'rx':
+        mods[rxname] = mods.pop('rx')
+        for k in list(mods):
+            mods[k] = mods[k].replace('p.rx', f'p.{rxname}').replace('import rx as', f'import {rxname} as')
+        new_full = new_full.replace('p.rx', f'p.{rxname}')
+    return mods, new_full, cons
+
+
+def _program(kind: str, rex: str, form: str, origin: str, consumers: Sequence[str], fmt: str) -> Tuple[Dict[str, str], str, List[Tuple[str, str, str]]]:
     exported = 'N2' if form == 'as' else 'O'
     imp = {'plain': 'from ._impl import O\n', 'as': 'from ._impl import O as N2\n', 'star': 'from ._impl import *\n'}[form]
     mods = {'p': '', '_impl': OBJ[kind] + ORIGIN[origin], 'rx': ''}
@@ -126,11 +157,11 @@ def judge_build(s: Any, kind: str, new_full: str, cons: Sequence[Tuple[str, str,
     O = s.allobjects.get(new_full)
     if O is None:
         return [('not-at-new-location', '-')]
-    if any(k == 'p._impl.O' or k.startswith('p._impl.O.') for k in s.allobjects):
+    if any(k == f'{DEF[0]}.O' or k.startswith(f'{DEF[0]}.O.') for k in s.allobjects):
         probs.append(('still-at-old-location', '-'))
     if O.parent is None or O.parent.contents.get(O.name) is not O:
         probs.append(('not-in-contents-of-re-exporter', '-'))
-    if 'O' in s.allobjects['p._impl'].contents:
+    if 'O' in s.allobjects[DEF[0]].contents:
         probs.append(('still-in-contents-of-definer', '-'))
     members = [k for k in s.allobjects if k.startswith(new_full + '.')]
     if kind.startswith('class'):
@@ -138,14 +169,14 @@ def judge_build(s: Any, kind: str, new_full: str, cons: Sequence[Tuple[str, str,
         if not want <= set(members):
             probs.append(('member-not-moved', '-'))
         if kind == 'class+sub':
-            sub = s.allobjects.get('p._impl.OSub')
+            sub = s.allobjects.get(f'{DEF[0]}.OSub')
             if sub is None or sub.baseobjects != [O]:
                 probs.append(('in-module-subclass-base-unresolved', '-'))
             elif sub not in O.subclasses:
                 probs.append(('in-module-subclass-not-listed', '-'))
     # old qualified name still leads to the object
     try:
-        found = s.find_object('p._impl.O')
+        found = s.find_object(f'{DEF[0]}.O')
     except LookupError:
         found = None
     if found is not O:
@@ -236,15 +267,15 @@ def judge_cli(kind: str, rex: str, form: str, consumer: str, res: Dict[str, Any]
         if kind.startswith('class'):
             if O.url not in pages:
                 res['violations'].append(core.violation('cli/page-missing-at-new-address/-', f'{O.url} was not written; pages {sorted(pages)[:12]}', case))
-            if 'p._impl.O.html' in pages:
-                res['violations'].append(core.violation('cli/page-at-old-address/-', 'p._impl.O.html was written', case))
+            if f'{DEF[0]}.O.html' in pages:
+                res['violations'].append(core.violation('cli/page-at-old-address/-', f'{DEF[0]}.O.html was written', case))
         else:
             page = (r.out / O.page_object.url).read_text(encoding='utf-8')
             if f'id="{O.fullName()}"' not in page and f'name="{O.fullName()}"' not in page:
                 res['violations'].append(core.violation('cli/anchor-missing-at-new-address/-', f'no anchor for {O.fullName()} on {O.page_object.url}', case))
-            old = (r.out / 'p._impl.html')
-            if old.exists() and ('id="p._impl.O"' in old.read_text(encoding='utf-8')):
-                res['violations'].append(core.violation('cli/anchor-at-old-address/-', 'p._impl.html still documents O', case))
+            old = (r.out / (f'{DEF[0]}.html' if DEF[0] != 'p' else 'index.html'))
+            if old.exists() and (f'id="{DEF[0]}.O"' in old.read_text(encoding='utf-8')):
+                res['violations'].append(core.violation('cli/anchor-at-old-address/-', f'the page of {DEF[0]} still documents O', case))
         # in-process model of the full run == in-memory build (binds the two seams together)
         mem = build(mods, [m for m in sorted(mods) if m != 'p'])
         if sorted(mem.allobjects) != sorted(s.allobjects):
@@ -253,11 +284,11 @@ def judge_cli(kind: str, rex: str, form: str, consumer: str, res: Dict[str, Any]
 
 def jobs(tier: str) -> Iterable[Tuple[str, Any]]:
     for kind in OBJ:
-        for rex in ('init', 'sibling'):
+        for rex in REXES:
             for form in ('plain', 'as', 'star'):
                 yield ('one-consumer', ('single', kind, rex, form))
     for kind in ('class', 'func', 'var'):
-        for rex in ('init', 'sibling'):
+        for rex in REXES:
             yield ('full-runs', ('cli', kind, rex))
     if tier == 'thorough':
         for kind in OBJ:
@@ -272,6 +303,8 @@ def run_job(job: Any, tier: str) -> Dict[str, Any]:
     if job[0] == 'single':
         _, kind, rex, form = job
         for origin in ORIGIN:
+            if rex.startswith('initdef') and origin in ('imports-back', 'dupbind'):
+                continue        # written for a separate defining module
             for consumer in CONSUMERS:
                 if consumer == 'star-definer' and origin == 'all-without':
                     continue        # CPython would not bind the name in the consumer at all
